@@ -568,8 +568,8 @@ void body()
                         "stream/file-interleavings", "stream/failing/bad-stream-reported", "stream/failing/plain-eof",
                         "stream/failing/entry-point-runs", "stream/failing/rewind-after-bad", "stream/failing/unseekable-rewind"})
     vf::require_bucket(b);
-  exhaustive<char>(vf::tier<unsigned>(7, 10));
-  exhaustive<wchar_t>(vf::tier<unsigned>(6, 9));
+  exhaustive<char>(vf::tier<unsigned>(7, 12));
+  exhaustive<wchar_t>(vf::tier<unsigned>(6, 10));
   random_texts<char>(vf::tier<std::uint64_t>(3000, 200000), false);
   random_texts<wchar_t>(vf::tier<std::uint64_t>(2000, 100000), false);
   random_texts<char>(vf::tier<std::uint64_t>(600, 20000), true);
